@@ -206,6 +206,9 @@ class Engine(Interp):
         h = getattr(base, "setitem", None)
         if h is not None:
             return h(self, idx, v, node)
+        if isinstance(base, SData) and "__setitem__" in getattr(base.ty.dt, "mutators", {}) and isinstance(node.value, ast.Name):
+            self.frame.env[node.value.id] = base.ty.dt.mutators["__setitem__"](self, base, [idx, v])
+            return
         w = getattr(base, "with_item", None)
         if w is not None:      # immutable value: functional update written back to where it came from
             return self.assign(node.value, w(self, idx, v))
@@ -361,7 +364,18 @@ class Engine(Interp):
 
         def pre_body():
             i = env[ghost]
-            self.assign(node.target, seq.elem.wrap(z3.simplify(seq.arr[int_term(i)])))
+            t = z3.simplify(seq.arr[int_term(i)])
+            from .ctx import is_light
+            if not is_light(t):
+                # an element given by a recursive specification function: name it, so that what the body learns about it
+                # (constructor tests) is visible to the cheap feasibility solver
+                c = self.ctx.fresh("elem", t.sort())
+                self.ctx.assume(c == t)
+                t = c
+            facts = getattr(seq, "elem_facts", None)
+            if facts is not None:        # ground instances of the (separately proved) lemmas about the i-th element
+                facts(self, int_term(i), t)
+            self.assign(node.target, seq.elem.wrap(t))
 
         def post_body():
             env[ghost] = arith("+", env[ghost], 1)
